@@ -41,7 +41,7 @@ AppendCircuit == \E d, s \in Obj : objs[s] <= objs[d] /\ \E f \in Inj(objs[s], o
                     Step([op |-> "append_circuit", dst |-> d - 1, src |-> s - 1, qubits |-> f], -1)
 IAdd == \E d, s \in Obj : objs[s] <= objs[d] /\ Step([op |-> "iadd", dst |-> d - 1, src |-> s - 1], -1)
 Add == Len(objs) < MaxObjs /\ \E a, b \in Obj : objs[b] <= objs[a] /\ Step([op |-> "add", a |-> a - 1, b |-> b - 1], objs[a])
-Repeat == Len(objs) < MaxObjs /\ \E a \in Obj, n \in 1..3 : Step([op |-> "repeat", a |-> a - 1, n |-> n], objs[a])
+Repeat == Len(objs) < MaxObjs /\ \E a \in Obj, n \in 0..3 : Step([op |-> "repeat", a |-> a - 1, n |-> n], objs[a])
 Copy == Len(objs) < MaxObjs /\ \E a \in Obj, v \in BOOLEAN : Step([op |-> "copy", a |-> a - 1, vanilla |-> v], objs[a])
 Gate == \E d \in Obj : \E g \in {X(0), T(0), H(objs[d] - 1)} : Step([op |-> "gate", dst |-> d - 1, g |-> g], -1)
 RmId == \E a \in Obj : Step([op |-> "rmid", a |-> a - 1], -1)
